@@ -140,8 +140,12 @@ func writeBursts(c *mon.Case, p params, side string, conn net.Conn, half *memwir
 		w0, _, _ := half.Snapshot()
 		budget := int64(4<<20) + 64*int64(sz)
 		half.SetWriteFault(half.Written()+budget, errBudget)
-		n, err := conn.Write(st.Bytes(off, sz))
+		n, err, pan := safeWrite(conn, st.Bytes(off, sz))
 		half.SetWriteFault(-1, nil)
+		if pan != nil {
+			c.Violation("panic/Write/"+normPanic(fmt.Sprint(pan)), fmt.Sprintf("%s: Write(%d bytes) panicked: %v; %s", side, sz, pan, p), p.String())
+			return out, false
+		}
 		w1, _, _ := half.Snapshot()
 		if errors.Is(err, errBudget) {
 			var tail []int
@@ -166,6 +170,25 @@ func writeBursts(c *mon.Case, p params, side string, conn net.Conn, half *memwir
 		out = append(out, b)
 	}
 	return out, true
+}
+
+func safeWrite(conn net.Conn, b []byte) (n int, err error, pan any) {
+	defer func() { pan = recover() }()
+	n, err = conn.Write(b)
+	return
+}
+
+func normPanic(s string) string {
+	out := []byte(s)
+	for i, ch := range out {
+		if ch >= '0' && ch <= '9' {
+			out[i] = 'N'
+		}
+	}
+	if len(out) > 60 {
+		out = out[:60]
+	}
+	return string(out)
 }
 
 func judgeBursts(c *mon.Case, r *mon.Run, p params, side string, bs []burst, vals map[int]bool, list []int) {
@@ -551,7 +574,21 @@ func TestCheck(t *testing.T) {
 		for blk := 0; blk < 3001; blk += 250 {
 			iat, blk := iat, blk
 			r.Bubble(fmt.Sprintf("sizes/iat%d/%04d", iat, blk), func(c *mon.Case) {
-				allSizes(c, r, dir, iat, blk, min(3001, blk+250))
+				allSizes(c, r, dir, iat, blk, min(3001, blk+250), "")
+			})
+		}
+	}
+	// ... and every size around one segment for the searched table shapes (the
+	// padding arithmetic near a full segment depends on the exact buffered length)
+	for iat := 0; iat < 3; iat++ {
+		for _, shape := range []string{"single-1448", "single-zero", "pair-with-zero", "zero-sample-f2", "single-1365", "single-210", "single-10"} {
+			iat, shape := iat, shape
+			r.Bubble(fmt.Sprintf("sizes-shaped/iat%d/%s", iat, shape), func(c *mon.Case) {
+				allSizes(c, r, dir, iat, 1300, 1500, shape)
+				if r.Thorough() {
+					allSizes(c, r, dir, iat, 0, 1300, shape)
+					allSizes(c, r, dir, iat, 1500, 3001, shape)
+				}
 			})
 		}
 	}
@@ -559,11 +596,15 @@ func TestCheck(t *testing.T) {
 }
 
 // allSizes writes every size in [lo,hi) once on one server connection.
-func allSizes(c *mon.Case, r *mon.Run, dir string, iat, lo, hi int) {
-	p := params{iat: iat, biased: false, seed: r.Sub("allsizes", iat)}
+func allSizes(c *mon.Case, r *mon.Run, dir string, iat, lo, hi int, shape string) {
+	p := params{iat: iat, biased: false, shape: shape, seed: r.Sub("allsizes", iat, shape)}
 	rng := mon.NewRand(p.seed)
 	flag.Set("obfs4-distBias", "false")
 	b := o4.NewBridge(rng, iat)
+	if shape != "" {
+		raw, _ := hex.DecodeString(shaped[shape])
+		copy(b.Seed[:], raw)
+	}
 	vals, list := table(b.Seed, false)
 	sf, err := o4.ServerFactory(dir, b)
 	if err != nil {
